@@ -29,7 +29,7 @@ from .c16_gen import (PYWS, gen_range_header, gen_len, gen_request, gen_elements
                       enum_small_headers, enum_decision_table, content_bytes, httpdate)
 
 PROPERTY = 'C16'
-LEAN_TARGETS = ['CpProofs.C16', 'CpProofs.C16Cond', 'CpProofs.C16Elems', 'drv_c16']
+LEAN_TARGETS = ['CpProofs.C16', 'CpProofs.C16Cond', 'CpProofs.C16Elems', 'CpProofs.C16Multipart', 'drv_c16']
 DRIVER = 'drv_c16'
 THEOREMS = ['CpProofs.C16.' + t for t in (
     # ranges: parsing
@@ -37,7 +37,7 @@ THEOREMS = ['CpProofs.C16.' + t for t in (
     'invalid_spec_ignored', 'honoured_iff', 'suffix_zero', 'suffix_on_empty', 'empty_entity_unsat',
     # ranges: serving
     'readSlice_eq', 'http10_whole', 'unknown_length_whole', 'serve_ignored', 'serve_unsat', 'serve_single',
-    'serve_multi', 'ranges_conform',
+    'serve_multi', 'ranges_conform', 'parseDec_dec', 'multipart_decodes', 'serve_multi_wire',
     # validators
     'validateSince_table', 'validateSince_no_lastmod', 'validateSince_guard', 'validateEtags_table',
     'validateEtags_non2xx', 'absent_headers_pass', 'star_semantics', 'weak_is_not_equal', 'no_etag',
@@ -563,7 +563,7 @@ class _Env:
                     except OSError:
                         pass
                 self.files.clear()
-            p = os.path.join(self.dir, 'f_' + key + '.bin')
+            p = os.path.join(self.dir, 'f_' + key + '.txt')
             with open(p, 'wb') as f:
                 f.write(content)
             self.files[key] = p
@@ -699,6 +699,8 @@ def canon_real(case, obs):
         parts = parse_multipart(obs)
         body = 'p:unparsable' if parts is None else 'p:' + ';'.join(
             '%d-%d/%d:%d:%d' % (a, b, t, len(p), zlib.adler32(p)) for a, b, t, p in parts)
+        # the exact framing bytes (boundary taken from the response) are compared as well
+        body += ':m%d:%d' % (len(obs['body']), zlib.adler32(obs['body']))
     else:
         body = body_sig(obs['body'])
     return 's=%d cr=%s cl=%s etag=%s body=%s' % (st, crs, cl, enc_opt(etag), body)
@@ -715,7 +717,14 @@ def canon_model(line):
     return 's=%s cr=%s cl=%s etag=%s body=%s' % (f['s'], f['cr'], f['cl'], f['etag'], f['body'])
 
 
-def model_line(case):
+def multipart_boundary(obs):
+    if obs is None:
+        return None
+    m = re.match(r'multipart/byteranges; boundary=(\S+)$', obs['headers'].get('content-type', ''))
+    return m.group(1) if m and obs['status'] == 206 else None
+
+
+def model_line(case, obs=None):
     case = norm_case(case)
     kind = case['kind']
     content = content_bytes(case)
@@ -737,7 +746,8 @@ def model_line(case):
         '0' if kind == 'bio' else '1', str(case['base'] if kind == 'gen' else 200), '1' if call else '0',
         '1' if case['etags'] >= 1 else '0', '1' if case['etags'] == 2 else '0',
         enc_opt(case['hetag']), enc_text(auto), enc_opt(lm), enc_list(im), enc_list(inm),
-        enc_opt(case.get('ims')), enc_opt(case.get('ius')), enc_opt(case.get('range')), cont])
+        enc_opt(case.get('ims')), enc_opt(case.get('ius')), enc_opt(case.get('range')), cont,
+        enc_opt(multipart_boundary(obs)), enc_text('text/plain' if kind == 'tool' else 'application/x-test')])
 
 
 # ---- the request oracle ------------------------------------------------------------------------
@@ -937,9 +947,10 @@ def _union(slices):
 
 
 def check_requests(ctx, cases, compare=True):
-    model = ctx.model([model_line(c) for c in cases]) if compare else None
+    observed = [run_request(c) for c in cases]
+    model = ctx.model([model_line(c, o) for c, o in zip(cases, observed)]) if compare else None
     for idx, case in enumerate(cases):
-        obs = run_request(case)
+        obs = observed[idx]
         conds = [k for k in ('range', 'im', 'inm', 'ims', 'ius') if case.get(k) is not None]
         ctx.case(case, nontrivial=bool(conds), key='Q|' + json.dumps(case, sort_keys=True))
         ctx.count('Q:status:%d' % obs['status'])
@@ -1177,7 +1188,7 @@ def replay(ctx, case):
         else:
             obs = run_request(case)
             print('impl   :', canon_real(case, obs))
-            m = ctx.model([model_line(case)])
+            m = ctx.model([model_line(case, obs)])
             if m:
                 print('model  :', canon_model(m[0]))
         run_case_list(ctx, [dict(case, op=op)])
